@@ -52,7 +52,7 @@ func runSweep(r *vrun.Run) {
 		us := off / 1000
 		sc.Confirm = us%16 == 0 || (us >= -2 && us <= 2)
 		if rep >= 1000 {
-			sc.Confirm = rep%4 == 0
+			sc.Confirm = rep%16 == 0
 		}
 		idx++
 		cases = append(cases, sc)
@@ -252,7 +252,10 @@ func relation(sc scen) string {
 
 func judgeBubble(r *vrun.Run, sc scen, st *state, out *bubbleOut, deadlock string) {
 	d, T, E, P := sc.D(), sc.T(), sc.E(), sc.P()
-	near := func(a, b time.Duration) bool { x := a - b; return x >= -50*time.Microsecond && x <= 50*time.Microsecond }
+	near := func(a, b time.Duration) bool {
+		x := a - b
+		return x >= -50*time.Microsecond && x <= 50*time.Microsecond
+	}
 	nontrivial := sc.Kind != kWaitOnly && (near(d, T) || (P != inf && near(d, P))) || sc.Parent != pLive
 	r.Case(sc.canonical(), nontrivial)
 	r.Obs("sweep_cases", 1)
